@@ -407,7 +407,8 @@ class Check:
         nm = gen.node_map(world)
         if top not in nm:
             raise CaseInvalid("root missing")
-        cols = ["path", "name", "size", "uid", "gid", "user", "group", "inode", "hardlinks", "blocks", "modified", "accessed", "created", "mode", "is_symlink", "is_hidden", "is_empty"]
+        cols = ["path", "name", "size", "uid", "gid", "user", "group", "inode", "hardlinks", "blocks", "modified", "accessed", "created", "mode", "is_symlink", "is_hidden", "is_empty",
+                "dir", "abspath", "absdir"]
         classes = case.get("classes")
         config = None
         if classes:
@@ -453,7 +454,14 @@ class Check:
                     "mode": statmod.filemode(st.st_mode),
                     "is_symlink": "true" if statmod.S_ISLNK(st.st_mode) else "false",
                     "is_hidden": "true" if path.rsplit("/", 1)[-1].startswith(".") else "false",
+                    # the location, decomposed: the parent as walked, the parent's real path, the entry's real path (through a link: its target's)
+                    "dir": path.rsplit("/", 1)[0],
+                    "absdir": os.path.join(sb.root, path.rsplit("/", 1)[0]),
                 }
+                try:
+                    want["abspath"] = os.path.realpath(os.path.join(sb.root, path), strict=True)
+                except OSError:
+                    want["abspath"] = ""
                 for k_, exts_ in (classes or {}).items():
                     want[k_] = "true" if path.rsplit("/", 1)[-1].lower().endswith(tuple(exts_)) else "false"
                 if "atime" in ov:  # asserted only for a simulated answer (the real atime is moved by the run itself)
